@@ -54,6 +54,7 @@ REAL = {
     "LLImplPalette": ("ak.hdoc:LLImpl.LLImplPalette", {"text": "TEXT", "name": "LL.NAME", "category": "LL.CATEGORY"}),
 }
 COMPOUND = ("TablePalette",)
+ODD_IDS = ["red", "Cyan", "Blue.x", "G5", "g24", "g05", "white", "Magenta", "usr.a", "TEXT.sub"]
 GLOBAL_ACCESSORS = {"text": "TEXT", "name": "NAME", "keyword": "KEYWORD", "ok": "OK", "warn": "WARN", "error": "ERROR"}
 
 
@@ -95,6 +96,9 @@ def generate(rng, tier):
         syn_ids += ids
     real_ids = sorted({sid for name in real_used for sid in REAL[name][1].values()
                        if sid and sid not in colorgen.BUILTIN_IDS})
+    if rng.random() < 0.25:
+        # syntax ids are arbitrary strings: ids that merely LOOK like colours (wrong case, out of range)
+        usr = usr + rng.sample(ODD_IDS, rng.randint(1, 3))
     # global order: an id may refer only to ids placed before it (acyclic by construction);
     # built-ins first because the real component defaults refer to them
     later = syn_ids + usr + real_ids
